@@ -71,10 +71,16 @@ def sym_uuid_list(ex, name, n, db=None):
 def run_action(ex, db, ctor, ctor_args, execute, tx=None, ctx=None):
     """construct an action through its real constructor and run its real Execute inside a model tx"""
     act = ex.call_named(ctor, ctor_args)
-    if tx is None:
-        tx = reldb.begin_tx(ex, db)
     if ctx is None:
         ctx = new_context(ex)
+    if ex.env.get('via_client') and tx is None:
+        # through the real transaction wrapper: client.DoCtxTx(ctx, nil, action.Execute)
+        client = reldb.make_client(ex, db)
+        fn = PyFunc(lambda ex_, a: ex_.call_named(execute, [act, a[0], a[1]]), 'Execute')
+        err = ex.call_named('(*' + ENT + '.Client).DoCtxTx', [client, ctx, None, fn])
+        return act, None, err
+    if tx is None:
+        tx = reldb.begin_tx(ex, db)
     err = ex.call_named(execute, [act, ctx, tx])
     return act, tx, err
 
